@@ -21,7 +21,8 @@ META = {
 
 CONFIGS = ['first-use-alt', 'existing-alt', 'top-sticky-first-use', 'collision-1', 'collision-2', 'home-same-volume',
            'fallback-cross-volume', 'fallback-cross-volume-existing', 'trash-dir-opt', 'orphan-in-the-way', 'dot-trashinfo-name',
-           'long-name']
+           'long-name', 'mount-point-named-relatively+fallback', 'mount-point-with-trailing-slash+fallback']
+NCFG = len(CONFIGS)
 
 
 def scenario(kind, cfg):
@@ -60,6 +61,14 @@ def scenario(kind, cfg):
     elif c == 'long-name':
         name = 'L' * 250
     src = src[:-1] + name
+    if c.startswith('mount-point'):
+        # the entry is a directory another volume is mounted on (whatever `kind` says); trash-put must refuse it however
+        # it is spelled - with the home fallback enabled a copy+delete of the whole volume would otherwise start
+        args = ['--home-fallback']
+        e['TRASH_ENABLE_HOME_FALLBACK'] = '1'
+        nodes += [W.f(src + '/on-the-volume', 'DATA', 0o644, 1000), W.d(src + '/sub'), W.f(src + '/sub/deep', 'DEEP', 0o600, 1001)]
+        world = W.W(mounts=K.MOUNTS + [src], cwd='/v/d', nodes=nodes)
+        return world, C('put', args + ['--', 'x/' if 'slash' in c else 'x'], e, cwd='/v/d'), src
     nodes += K.entry_nodes(kind, src, 1000)
     world = W.W(mounts=K.MOUNTS, cwd=src.rsplit('/', 1)[0], nodes=nodes)
     step = C('put', args + ['--', name], e, cwd=src.rsplit('/', 1)[0])
@@ -164,18 +173,18 @@ def _case(kind, cfg, k, mode=0):
 def w_crash(kind: int, cfg: int, k: int, mode: int) -> str:
     """
     pre: PARTITION is None or (cfg == PARTITION[0] and mode == PARTITION[1])
-    pre: 0 <= kind < 6 and 0 <= cfg < 12 and 0 <= k < kbound(None if PARTITION is None else PARTITION[0]) and 0 <= mode < NMODE
+    pre: 0 <= kind < 6 and 0 <= cfg < NCFG and 0 <= k < kbound(None if PARTITION is None else PARTITION[0]) and 0 <= mode < NMODE
     post: _ == ''
     """
-    return _case(rt.sel(kind, 6), rt.sel(cfg, 12), rt.sel(k, kbound(None if PARTITION is None else PARTITION[0])), rt.sel(mode, NMODE))
+    return _case(rt.sel(kind, 6), rt.sel(cfg, NCFG), rt.sel(k, kbound(None if PARTITION is None else PARTITION[0])), rt.sel(mode, NMODE))
 
 
 def obligations(tier):
     from harness import kpair
-    return kpair.obligations(tier) + [CH('W_crash_point_x_kind_x_config', MOD, 'w_crash', timeout=2400, partitions=[(c, md) for c in range(12) for md in range(NMODE)], engine='W',
+    return kpair.obligations(tier) + [CH('W_crash_point_x_kind_x_config', MOD, 'w_crash', timeout=2400, partitions=[(c, md) for c in range(NCFG) for md in range(NMODE)], engine='W',
                regime='selector', encodes=K.PUT_FUNCS + ['shutil.move/copytree/copy2/rmtree, os.makedirs (CPython source over the model)'],
                stubs=K.STUBS + ['SIGKILL -> sticky BaseException at the k-th system call', 'SIGINT -> one KeyboardInterrupt instead of / right after the k-th system call',
                       'SIGTERM / SIGHUP -> the handler the command installed with signal.signal (recorded) runs at that point; none installed: killed'],
                bounds='crash point k in 0..(longest undisturbed run of the configuration, measured) x 6 ways of dying (fail-stop; KeyboardInterrupt '
-                      'delivered before / after the k-th system call, clean-up handlers run; SIGTERM before / after, SIGHUP after, with the handlers the command installs) x 6 kinds x 12 configurations '
-                      '(first use, existing dir, sticky .Trash, 1-2 collisions, home, cross-volume fallback, --trash-dir, orphan in the way, a name ending in .trashinfo, a 250-byte name)')]
+                      'delivered before / after the k-th system call, clean-up handlers run; SIGTERM before / after, SIGHUP after, with the handlers the command installs) x 6 kinds x 14 configurations '
+                      '(first use, existing dir, sticky .Trash, 1-2 collisions, home, cross-volume fallback, --trash-dir, orphan in the way, a name ending in .trashinfo, a 250-byte name, a mount point named relatively / with a trailing slash while the home fallback is on)')]
